@@ -46,3 +46,17 @@ Theorem C02_lexer_language : forall s ts, lex s = Some ts <->
   exists l trail, Forall ok_pair l /\ all_ws trail = true /\ s = render l trail /\ ts = map (fun p => tok_of (snd p)) l.
 Proof. exact lex_iff. Qed.
 Print Assumptions C02_lexer_language.
+
+(* the validity check on strings (head of is_valid_expression, Model/ValidStr.v): whatever the string, it either reaches the evaluation loop with
+   the resolved tree or is reported as (False, message); a malformed string never escapes as an exception *)
+From Ahb Require Import Model.ValidStr.
+Theorem C02_validity_reports_malformed : forall message_of on_tree s,
+  resolve_str s = Exn SyntaxErr -> is_valid_str message_of on_tree s = Ok (false, Some (message_of s)).
+Proof. exact validity_reports_malformed. Qed.
+Print Assumptions C02_validity_reports_malformed.
+
+Theorem C02_validity_of_any_string : forall message_of on_tree s,
+  (exists r, resolve_str s = Ok r /\ is_valid_str message_of on_tree s = on_tree r) \/
+  is_valid_str message_of on_tree s = Ok (false, Some (message_of s)).
+Proof. exact validity_of_any_string. Qed.
+Print Assumptions C02_validity_of_any_string.
